@@ -99,7 +99,13 @@ static int verif_publish_cas(_Atomic(hazard_pointer_thread_record_t*)* head, haz
   return 1;
 }
 #undef atomic_compare_exchange_weak_explicit
+#undef atomic_compare_exchange_strong_explicit
+#undef atomic_compare_exchange_weak
+#undef atomic_compare_exchange_strong
 #define atomic_compare_exchange_weak_explicit(obj, exp, des, so, fo) verif_publish_cas((obj), (exp), (des))
+#define atomic_compare_exchange_strong_explicit(obj, exp, des, so, fo) verif_publish_cas((obj), (exp), (des))
+#define atomic_compare_exchange_weak(obj, exp, des) verif_publish_cas((obj), (exp), (des))
+#define atomic_compare_exchange_strong(obj, exp, des) verif_publish_cas((obj), (exp), (des))
 
 #include "hazard_pointer.c" /* real source */
 
